@@ -117,6 +117,11 @@ func (l *Lexer) NextToken() *token.Token {
 		}
 		return token.Intern(token.STRING, str)
 	case 0:
+		if !l.pastEnd() {
+			// An actual NUL byte in the input, not the end of input sentinel.
+			return token.Intern(token.ILLEGAL, "\x00")
+		}
+		l.pos = len(l.input) // stay at the end so repeated calls keep returning the end marker.
 		return l.EOLEOF()
 	case '.':
 		if nextChar == '.' { // DOTDOT
@@ -169,6 +174,11 @@ func (l *Lexer) skipWhitespace() {
 		l.hadWhitespace = true
 		l.pos++
 	}
+}
+
+// pastEnd tells if the last readChar() went past the end of the input (its 0 was the sentinel, not a NUL byte).
+func (l *Lexer) pastEnd() bool {
+	return l.pos > len(l.input)
 }
 
 func (l *Lexer) readChar() byte {
@@ -241,7 +251,7 @@ func (l *Lexer) readString(sep byte) (string, bool) {
 			}
 		case ch == sep:
 			return buf.String(), true
-		case ch == 0:
+		case ch == 0 && l.pastEnd():
 			return buf.String(), false
 		}
 		buf.WriteByte(ch)
@@ -266,13 +276,9 @@ func (l *Lexer) readIdentifier() string {
 	return string(l.input[pos:l.pos])
 }
 
-func notEOL(ch byte) bool {
-	return ch != '\n' && ch != 0
-}
-
 func (l *Lexer) readLineComment() string {
 	pos := l.pos - 1
-	for notEOL(l.peekChar()) {
+	for l.pos < len(l.input) && l.peekChar() != '\n' {
 		l.pos++
 	}
 	return strings.TrimSpace(string(l.input[pos:l.pos]))
@@ -286,11 +292,11 @@ func (l *Lexer) readBlockComment() string {
 	pos1 := l.pos - 1
 	l.pos++
 	ch := l.readChar()
-	for ch != 0 && !l.endBlockComment(ch) {
+	for !l.pastEnd() && !l.endBlockComment(ch) {
 		ch = l.readChar()
 	}
-	if ch == 0 {
-		l.pos--
+	if l.pastEnd() {
+		l.pos = len(l.input)
 	} else {
 		l.pos++
 	}
